@@ -508,6 +508,36 @@ theorem createBlock_spec (s : Store) (n : Option Name) (hg : Good s.db) (hac : s
         simp only [Store.commit, Store.autocommit, Option.isNone_some, Bool.false_and, Bool.false_eq_true, if_false, Option.getD]
         rfl
 
+/-- the name a lenient creation sees: validity waived, key and spelling as given -/
+def lenName (n : Option Name) (len : Bool) : Option Name := if len then n.map (fun x => { x with valid := true }) else n
+
+theorem createBlock_len_eq (s : Store) (n : Option Name) (len : Bool) : createBlock s n len = createBlock s (lenName n len) false := by
+  cases len
+  · rfl
+  · cases n <;> simp [createBlock, lenName]
+
+theorem specCreateBlock_len_eq (a : AState) (n : Option Name) (len : Bool) : specCreateBlock a n len = specCreateBlock a (lenName n len) false := by
+  cases len
+  · rfl
+  · cases n <;> simp [specCreateBlock, lenName]
+
+theorem createFrame_len_eq (s : Store) (hd : CH) (n : Option Name) (len : Bool) : createFrame s hd n len = createFrame s hd (lenName n len) false := by
+  cases len
+  · rfl
+  · cases n <;> simp [createFrame, lenName]
+
+theorem specCreateFrameH_len_eq (a : AState) (hd : CH) (n : Option Name) (len : Bool) :
+    specCreateFrameH a hd n len = specCreateFrameH a hd (lenName n len) false := by
+  cases len
+  · rfl
+  · cases n <;> simp [specCreateFrameH, lenName]
+
+/-- cif_create_block_internal (lenient or not) outside any transaction commutes with `absS`, same code -/
+theorem createBlock_specL (s : Store) (n : Option Name) (len : Bool) (hg : Good s.db) (hac : s.autocommit = true) :
+    absS (createBlock s n len).1.db = (specCreateBlock (absS s.db) n len).1 ∧ (createBlock s n len).2 = (specCreateBlock (absS s.db) n len).2 := by
+  rw [createBlock_len_eq, specCreateBlock_len_eq]
+  exact createBlock_spec s _ hg hac
+
 /-- cif_container_create_frame on an existing container, outside any transaction -/
 theorem createFrame_spec (s : Store) (hd : CH) (n : Option Name) (hg : Good s.db) (hac : s.autocommit = true) (hv : hd.validB s.db = true) :
     absS (createFrame s hd n).1.db = (specCreateFrameH (absS s.db) hd n).1 ∧ (createFrame s hd n).2 = (specCreateFrameH (absS s.db) hd n).2 := by
@@ -560,6 +590,14 @@ theorem createFrame_spec (s : Store) (hd : CH) (n : Option Name) (hg : Good s.db
         refine ⟨?_, by first | rfl | trivial⟩
         simp only [Store.commit, Store.autocommit, Option.isNone_some, Bool.false_and, Bool.false_eq_true, if_false, Option.getD]
         rfl
+
+/-- cif_container_create_frame_internal (lenient or not) on an existing container, outside any transaction -/
+theorem createFrame_specL (s : Store) (hd : CH) (n : Option Name) (len : Bool) (hg : Good s.db) (hac : s.autocommit = true)
+    (hv : hd.validB s.db = true) :
+    absS (createFrame s hd n len).1.db = (specCreateFrameH (absS s.db) hd n len).1 ∧
+      (createFrame s hd n len).2 = (specCreateFrameH (absS s.db) hd n len).2 := by
+  rw [createFrame_len_eq, specCreateFrameH_len_eq]
+  exact createFrame_spec s hd _ hg hac hv
 
 theorem hasItem_absS (d : Db) (hinv : Inv d) (cid : Nat) (k : Str) : (absS d).hasItem cid k = d.hasItem cid k := by
   unfold AState.hasItem
